@@ -65,6 +65,9 @@ def from_impl(s):
         val = np.atleast_1d(np.array(getattr(col, "value", col), dtype=float))
         cols[name] = (val, _ustr(unit))
     tr = s.t_ref
+    if tr is not None and not hasattr(tr, "tcb"):
+        tr = float(tr)  # a bare number is a barycentric MJD (the same convention as RVData's float times)
+        return TModel(cols, tr, s.poly_trend, s.n_offsets)
     return TModel(cols, None if tr is None else float(tr.tcb.mjd), s.poly_trend, s.n_offsets)
 
 
@@ -105,13 +108,14 @@ def diff(impl_model, model, rtol=0.0, atol=0.0, check_meta=True):
     return None
 
 
-def to_impl(m):
-    """Build a JokerSamples from a TModel."""
+def to_impl(m, numeric_t_ref=False):
+    """Build a JokerSamples from a TModel.  numeric_t_ref: hand the reference epoch over as a plain BMJD number (documented
+    input form) instead of a Time object."""
     import astropy.units as u
     from astropy.time import Time
     import thejoker as tj
 
-    tr = None if m.t_ref is None else Time(m.t_ref, format="mjd", scale="tcb")
+    tr = None if m.t_ref is None else (float(m.t_ref) if numeric_t_ref else Time(m.t_ref, format="mjd", scale="tcb"))
     s = tj.JokerSamples(t_ref=tr, poly_trend=m.poly_trend, n_offsets=m.n_offsets)
     for k, (v, un) in m.cols.items():
         s[k] = np.array(v) * (u.Unit(un) if un else u.one)
